@@ -87,7 +87,12 @@ func (w *bitsW) hasRange() bool             { return true }
 func (w *bitsW) rangeFn(fn func(uint) bool) { w.b.Range(fn) }
 func (w *bitsW) hasAll() bool               { return true }
 func (w *bitsW) all(fn func(uint) bool) {
-	for v := range w.b.All() {
+	// the iterator value is walked once completely first: a second walk must start over
+	// ("calling the iterator again walks the sequence again")
+	seq := w.b.All()
+	for range seq {
+	}
+	for v := range seq {
 		if !fn(v) {
 			break
 		}
